@@ -54,6 +54,8 @@ type Inst struct {
 	el  leader.Election
 	h   *Handle
 	nc  *nats.Conn
+	// freeGate: a scheduler gate held outside every critical section (gate_free)
+	freeGate chan struct{}
 	// startCancel cancels the context given to the latest Start call
 	startCancel context.CancelFunc
 	np, nd      atomic.Int32
@@ -441,7 +443,7 @@ func (m metrics) ObserveLeaderDuration(d time.Duration, _ prometheus.Labels) {
 		m.in.gate = ch
 		m.w.mu.Unlock()
 		m.in.lockHeld.Add(1)
-		m.w.tr.Emit(m.in.cfg.ID, "gate", KV{"where": "stop_leader_duration"})
+		m.w.tr.Emit(m.in.cfg.ID, "gate", KV{"where": "stop_leader_duration", "leader": m.in.el.IsLeader()})
 		<-ch
 		m.in.lockHeld.Add(-1)
 	}
@@ -1284,9 +1286,14 @@ func (w *World) exec(s *Step, now int64) {
 		w.mu.Lock()
 		ch := in.gate
 		in.gate = nil
+		fch := in.freeGate
+		in.freeGate = nil
 		w.mu.Unlock()
 		if ch != nil {
 			close(ch)
+		}
+		if fch != nil {
+			close(fch)
 		}
 	case "set_health":
 		w.mu.Lock()
@@ -1352,6 +1359,10 @@ func (w *World) cleanup() int {
 		if in.gate != nil {
 			close(in.gate)
 			in.gate = nil
+		}
+		if in.freeGate != nil {
+			close(in.freeGate)
+			in.freeGate = nil
 		}
 	}
 	for _, id := range w.order {
@@ -1612,8 +1623,18 @@ func (g *gateLogger) at(msg string) {
 	g.w.mu.Lock()
 	g.in.gate = ch
 	g.w.mu.Unlock()
+	if g.in.cfg.GateFree {
+		// the line is known to sit outside every critical section: the driver goes on as usual while the goroutine waits
+		g.w.mu.Lock()
+		g.in.gate = nil
+		g.in.freeGate = ch
+		g.w.mu.Unlock()
+		g.w.tr.Emit(g.in.cfg.ID, "gate", KV{"where": "log:" + msg, "leader": g.in.el.IsLeader()})
+		<-ch
+		return
+	}
 	g.in.lockHeld.Add(1) // the line may sit inside the election's critical section: no Status() calls meanwhile
-	g.w.tr.Emit(g.in.cfg.ID, "gate", KV{"where": "log:" + msg})
+	g.w.tr.Emit(g.in.cfg.ID, "gate", KV{"where": "log:" + msg, "leader": g.in.el.IsLeader()})
 	<-ch
 	g.in.lockHeld.Add(-1)
 }
